@@ -188,7 +188,7 @@ def run(ctx):
         'lists (any number of parts, any strings, logits with at least as many rows as characters): strings are z3 sequences '
         'of opaque symbols, a logits matrix is a z3 sequence of opaque rows; python slice semantics (negative / clamped '
         'bounds, floor division of negatives) are encoded exactly. The window arithmetic of process_lines (25 % overlap) is '
-        'not under contract here (bounded only, see C07 harness).')
+        'not under contract: it is covered by the bounded check split-and-stitch (the real process_lines of a transformer-type stub engine; every line must be stitched from the windows of its own text).')
     reps = vrun.verify([(lineocr.PATH, k) for k in PROOF_KEYS], lineocr.REGISTRY, root=core.repo_root(), both=thorough)
     ctx.add_proof_reports(reps, clause='per-step relation, length equation, rows == chars, overlap range')
     strings = [''.join(s) for k in range(0, (4 if thorough else 3) + 1) for s in itertools.product('ab', repeat=k)]
